@@ -774,7 +774,11 @@ DW_DIE_WORDS = ["name", "high", "low", "address", "label", "offset", "child", "p
                 "?AT_location", "@AT_location elem", "@AT_location elem label", "@AT_location elem value",
                 "@AT_location address", "abbrev attribute", "abbrev code", "abbrev label",
                 "@AT_location relem", "@AT_location relem label", "@AT_location elem offset", "\"%s\"", "\"%s\"",
-                "?root", "root ?root", "parent ?root", "[child] length", "[attribute] length", "dup root (== )" if False else "root"]
+                "?root", "root ?root", "parent ?root", "[child] length", "[attribute] length", "root",
+                # predicates that look at a DIE in place, then a word that needs its abbreviation
+                "!TAG_base_type", "?TAG_pointer_type", "!TAG_typedef", "?TAG_base_type", "!TAG_subprogram", "?TAG_const_type",
+                "!TAG_base_type abbrev code", "?TAG_typedef abbrev label", "!TAG_pointer_type abbrev", "!TAG_variable abbrev attribute label",
+                "raw parent", "cooked parent", "raw root", "raw parent offset", "cooked root offset"]
 
 
 def gen_dw_simple(rng):
@@ -875,6 +879,18 @@ REJECT_SEEDS = [
     'nosuchword', '?nosuch', '@AT_nosuch', 'A', 'let A := 1; let A := 2;', '(|A| let A := 1;)', '(|A A| A)',
     'let A := A;', '{A}', '?(let A := 1;) A', '(let A := 1;, 2) A', 'if 1 then let A := 1; else 2 A',
 ]
+
+
+def nul_twin(rng, text):
+    """TEXT with a NUL byte and some junk put in at a token boundary (inside a
+    splice if there is one): whatever compares, keys or copies query text as a
+    C string sees the original."""
+    junk = rng.choice(["\x00", "\x00junk", "\x00 )", "\x00 1 2 add", "\x00\x00", "\x00\"", "\x00 %)"])
+    spots = [m.start() for m in re.finditer(r" %\)", text)] if "%(" in text and rng.random() < 0.7 else []
+    if not spots:
+        spots = [m.start() for m in re.finditer(r" ", text)] + [len(text)]
+    at = rng.choice(spots)
+    return text[:at] + junk + text[at:]
 
 
 def gen_hostile(rng):
